@@ -1,5 +1,6 @@
 """C16 - the public choice function honours its random.choices-style contract."""
 import copy
+import functools
 import itertools
 import math
 import random
@@ -154,7 +155,6 @@ def judge(case):
                 if not _is_elem(a, pop):
                     viol.append("result %r is not an element of the population" % (a,))
                 # every argument may be passed by name (also through functools.partial, as generated code passes population / weights)
-                import functools
 
                 a3 = dc(input_id=uid, population=pop, weights=ws_arg)
                 a4 = functools.partial(dc, input_id=uid, population=pop)(cum_weights=cum_arg)
@@ -277,17 +277,25 @@ def judge(case):
                 dc(case["id"], [Tag(i, None) for i in range(m)], **copy.deepcopy(kw))
             except Exception:
                 pass  # the truncated / extended vector may itself be invalid (e.g. zero total): only a warm-up
-        try:
-            r = dc(case["id"], pop, **kw)
-            if kind in ("nan", "nan-cum"):
-                # a NaN total is "not finite": the documented ValueError; random.choices raises ValueError too
-                viol.append("NaN total accepted, returned %r" % (r,))
-            else:
-                viol.append("malformed call (%s) returned %r instead of raising %s" % (kind, r, want.__name__))
-        except want:
-            pass
-        except Exception as e:
-            viol.append("malformed call (%s) raised %s instead of %s: %s" % (kind, type(e).__name__, want.__name__, e))
+        # the same malformed call in every calling convention the signature allows (weights is the third positional parameter,
+        # as in random.choices; everything may be passed by name)
+        forms = [("", lambda: dc(case["id"], pop, **kw)), (" [all arguments by name]", lambda: dc(input_id=case["id"], population=pop, **kw))]
+        if "weights" in kw:
+            rest = {k: v for k, v in kw.items() if k != "weights"}
+            forms.append((" [weights passed positionally]", lambda: dc(case["id"], pop, kw["weights"], **rest)))
+            forms.append((" [weights positionally, through functools.partial]", lambda: functools.partial(dc, case["id"], pop, kw["weights"])(**rest)))
+        for how, fn in forms:
+            try:
+                r = fn()
+                if kind in ("nan", "nan-cum"):
+                    # a NaN total is "not finite": the documented ValueError; random.choices raises ValueError too
+                    viol.append("NaN total accepted%s, returned %r" % (how, r))
+                else:
+                    viol.append("malformed call (%s)%s returned %r instead of raising %s" % (kind, how, r, want.__name__))
+            except want:
+                pass
+            except Exception as e:
+                viol.append("malformed call (%s)%s raised %s instead of %s: %s" % (kind, how, type(e).__name__, want.__name__, e))
         if repr(kw) != repr(kw0):
             viol.append("arguments modified by a failing call")
         nontrivial = True
